@@ -104,7 +104,9 @@ def run(ctx):
         jobs, metas = [], []
         for i in range(nserv):
             root, nbs = make_tree(rng, os.path.join(td, 's%d' % i))
-            mode = rng.choice(['plain', 'difftool', 'mergetool-out', 'mergetool-noout', 'mergeweb-out', 'closable-plain'])
+            mode = rng.choice(['plain', 'difftool', 'difftool', 'mergetool-out', 'mergetool-noout', 'mergeweb-out', 'closable-plain'])
+            if i < 2:
+                mode = 'difftool'
             base_url = rng.choice(['/', '/', '/nbdime/'])
             params = {'cwd': os.path.join(root, 'work'), 'base_url': base_url}
             out = None
@@ -119,7 +121,15 @@ def run(ctx):
                 params['closable'] = True
             prefix = '' if base_url == '/' else base_url.rstrip('/')
             reqs = gen_requests(rng, mode, nbs, prefix)
-            jobs.append({'root': root, 'params': params, 'requests': reqs, 'start_cwd': root})
+            job = {'root': root, 'params': params, 'requests': reqs, 'start_cwd': root}
+            if mode == 'difftool' and (i % 2 == 0):
+                # the two notebooks are handed over as streams (git blobs / open files), as for `nbdiff-web REF REF`
+                job['stream_args'] = 'open-file' if i % 4 == 0 else 'blobs'
+                ctx.count('difftool-args:' + job['stream_args'])
+                extra = [{'method': 'POST', 'path': prefix + '/api/diff', 'body': json.dumps({'base': 'a.ipynb', 'remote': 'b.ipynb'}),
+                          'model': ['apiDiff', True, 'readable', 'readable'], 'args': ['a.ipynb', 'b.ipynb'], 'tag': 'diff'} for _ in range(2)]
+                job['requests'] = extra[:1] + reqs[:3] + extra[1:] + reqs[3:]
+            jobs.append(job)
             metas.append((mode, out, nbs, root))
         with concurrent.futures.ThreadPoolExecutor(max_workers=12) as ex:
             outs = list(ex.map(run_worker, jobs))
@@ -164,6 +174,9 @@ def run(ctx):
                         ctx.violation('close request on a %s session answered with %d' % ('closable' if closable else 'non-closable', res['status']), dict(data, kind='close'))
                 if r['tag'] in ('diff-malformed', 'diff-missing-key') and mode != 'difftool' and res['status'] < 400:
                     ctx.violation('malformed diff request answered with %d' % res['status'], dict(data, kind='malformed-accepted'))
+                if mode == 'difftool' and r['tag'] == 'diff' and res['status'] != 200:
+                    ctx.violation('diff tool session: request %d for the diff of the two notebooks fixed at start-up answered with %d' % (i, res['status']),
+                                  dict(data, kind='difftool-diff-fails', stream_args=job.get('stream_args')))
                 # --- semantic agreement with the library ---
                 if r['tag'] == 'diff' and res['status'] == 200:
                     body = json.loads(res['body'])
